@@ -736,7 +736,14 @@ def clause_block_info_reset(R, F, owners=("clear_caches", "finalise_block")):
         R.ob(fn is not None, "ANCHOR", "(engine)", "ANCHOR|block-info|%s" % name, "engine method %s not found" % name)
         if fn is None:
             continue
-        hits = [c.bb for c in fn.calls() if not fn.is_cleanup(c.bb) and any(cl in resets for cl in ((c.func or {}).get("arg_cl") or []) if cl)]
+        def _fn_args(c):
+            # closures handed to the call, and functions handed to it by name (`write_fn_unchecked(LastBlockInfo::reset)`)
+            ids = [cl for cl in ((c.func or {}).get("arg_cl") or []) if cl]
+            for a in c.args:
+                if isinstance(a, dict) and a.get("k") == "const" and a.get("fn"):
+                    ids.append(((a["fn"].get("res") or {}).get("id")) or a["fn"].get("id"))
+            return ids
+        hits = [c.bb for c in fn.calls() if not fn.is_cleanup(c.bb) and any(cl in resets for cl in _fn_args(c))]
         R.ob(bool(hits) and must_pass_on_success(fn, hits), "DOM-all", fn.where(), "DOM-all|%s|block-info-reset" % name,
              "%s does not reset the unfinished-block record (whole reset) on every success path" % name,
              sample={"rule": "DOM-all", "fn": name, "must": "whole reset of the unfinished-block record"})
